@@ -469,6 +469,8 @@ static const char* scratch_dir(void)
 
 // returns 0 if the child finished normally; child output (stdout) appended to `out`,
 // otherwise appends the partial stdout followed by the crash summary. stderr tail kept in *errtxt.
+static SB* g_ub_sink;   // when set, UB: tokens go here instead of the result line
+
 static int run_isolated(void (*fn)(void*), void* arg, SB* out, char** errtxt)
 {
   snprintf(g_errpath, sizeof g_errpath, "%s/.vf_err_%d", scratch_dir(), (int) getpid());
@@ -496,7 +498,7 @@ static int run_isolated(void (*fn)(void*), void* arg, SB* out, char** errtxt)
   for (size_t i = 0; i < no; i++) if (o[i] == '\n') o[i] = ' ';
   sb_put(out, o);
   int crashed = !(WIFEXITED(status) && WEXITSTATUS(status) == 0);
-  ub_reports(e, out);
+  ub_reports(e, g_ub_sink ? g_ub_sink : out);
   if (crashed)
   {
     if (out->len && out->p[out->len - 1] != ' ') sb_add(out, " ");
